@@ -3,3 +3,5 @@ pub mod text;
 pub mod strlit;
 pub mod syntax;
 pub mod schema;
+pub mod operation;
+pub mod opmutate;
